@@ -477,12 +477,47 @@ def radii_override_cases(part, row, seed):
     part.nstates(1)
 
 
+def big_override_cases(part, row, seed):
+    """
+    pairwise: a cell of realistic size (648 / 1029 atoms: the water grids) TOGETHER WITH a covalent_radii= override - here one that BREAKS
+    every O-H bond (radii 0.1 A: threshold 0.6 A), so that every atom is its own molecule; and the default next to it on the same crystal
+    """
+    if row["number"] != 1:
+        return
+    for n in (6, 7):
+        case = {"number": 1, "choice": "", "zkind": "directed", "centre": [0, 0, 0], "orient": 0, "seed": seed, "kind": "big-override",
+                "directed": {"bigcell": True, "n": n, "offset": 0.1, "listing": None}}
+        ops, cell, asym, imgs = make_directed(row, case)
+        nat = len(asym["symbols"])
+        for order in (("override", "default"), ("default", "override")):
+            for name in order:
+                # (a fresh crystal per request, as in override_history: the library memoises the molecules per object whatever the keywords)
+                c = xtal.make_crystal(1, "", cell, asym["symbols"], asym["frac"])
+                kw = {"covalent_radii": {8: 0.1, 1: 0.1}} if name == "override" else {}
+                part.ev()
+                part.tr(2)
+                try:
+                    mols = c.unit_cell_molecules(**kw)
+                    _, edges = c.unit_cell_connectivity(**kw)
+                except Exception as e:
+                    part.fail("big-override:raise:" + name, "unit_cell_molecules / unit_cell_connectivity(%s) of a %d-atom cell raised %r" % (kw, nat, e), case)
+                    continue
+                want_m, want_size, want_e = (nat, 1, 0) if name == "override" else (nat // 3, 3, 2 * (nat // 3))
+                sizes = sorted(set(len(m) for m in mols))
+                if len(mols) != want_m or sizes != [want_size] or len(edges) != want_e:
+                    part.fail("big-override:%s" % name, "%d-atom water cell with %s (asked %s): %d molecules of sizes %s and %d bonds, expected %d of size %d and %d bonds"
+                              % (nat, kw or "default radii", " then ".join(order), len(mols), sizes, len(edges), want_m, want_size, want_e), case)
+                part.outcome(("big-override", name, n, order[0]))
+    part.nstates(1)
+
+
 def worker(part, job, tier, seed):
     row, full = job
     if full == "override":
         override_history(part, row, seed)
         tolerance_cases(part, row, seed)
         radii_override_cases(part, row, seed)
+        big_override_cases(part, row, seed)
         return
     sk = "%d:%s" % (row["number"], row["choice"])
     n_ok = 0
@@ -511,7 +546,7 @@ def run(ctx):
             elif r["number"] in full_numbers:
                 jobs.append((r, False))
     jobs.sort(key=lambda j: -len(j[0]["symops"]) * (30 if j[1] else 1))
-    jobs += [(r, "override") for r in table if (r["number"], r["choice"]) in ((2, ""), (14, "b1"), (19, ""), (148, "H"))]
+    jobs += [(r, "override") for r in table if (r["number"], r["choice"]) in ((1, ""), (2, ""), (14, "b1"), (19, ""), (148, "H"))]
     ctx.rule = ("rigid molecules {H2O, CO, CO2, CH4}, Z' in {1, 2 equal, 2 different sizes}, centres on the grid %s^3 (molecules straddle "
                 "0..3 faces), 3 orientations; settings: %d; cases failing the property's precondition (decided by the reference) are "
                 "skipped and counted; distinct = (setting, Z' kind, centre, orientation) cases that passed the precondition"
